@@ -112,10 +112,13 @@ class FourWay(object):
             self.model_mf += lib.model_run("gloopmf", self.cases[a:a + CH])
         # sessions the real GLib loop did not finish: legitimate only if the GLib model does not finish them either
         self.unfinished = []
+        # (bounded fuel — the interpreter's cost grows with the square of the trace —: the model must run out of fuel too
+        #  and the two traces must agree as far as both go)
         if self.suspect:
-            ms = lib.model_run("gloop", [[max(c[0], 4000), c[1], c[2]] for c, _, _ in self.suspect])
+            ms = lib.model_run("gloop", [[1500, c[1], c[2]] for c, _, _ in self.suspect])
             for (c, i, g), m in zip(self.suspect, ms):
-                if 5 in m[0]:
+                k = min(len(g[1]), len(m[1]))
+                if 5 in m[0] and g[1][:k] == m[1][:k] and k > 50:
                     self.dropped["both_diverge"] += 1
                 else:
                     self.unfinished.append((c, i, g, m))
@@ -160,8 +163,9 @@ def report_pair(chk, c, i, g, mm, mg, stats):
                       "the two loops differ on a session and the first divergence matches none of the known classes: MainLoop goes on with %s, "
                       "GLibEventLoop with %s" % (desc["main_next"], desc["glib_next"]), detail, found=True)
         return
-    stats["keys"].setdefault(key, c)
-    chk.violation(key, "MainLoop and GLibEventLoop differ (%s): %s" % (key, D.KEYS[key]), detail, found=True)
+    if key not in stats["keys"]:           # one report per class (lib keeps the first 20 reports only)
+        stats["keys"][key] = c
+        chk.violation(key, "MainLoop and GLibEventLoop differ (%s): %s" % (key, D.KEYS[key]), detail, found=True)
 
 
 def D_name(e):
@@ -238,9 +242,11 @@ def run(chk, tier):
         report_pair(chk, c, i, g, mm, mg, stats)
         if 5 not in mf[0] and D.observable(c, mf) != D.observable(c, mg):
             mf_witness += 1
-            chk.violation("glib-mark-after-handlers", "marking the ticket before instead of after the handlers changes the observable of the GLib "
-                          "model on this session (F9(e)): %s" % D.KEYS["glib-mark-after-handlers"],
-                          dict(kind="c20", case=c, observable_mark_after=D.observable(c, mg), observable_mark_first=D.observable(c, mf)), found=True)
+            if mf_witness == 1:
+                chk.violation("glib-mark-after-handlers", "marking the ticket before instead of after the handlers changes the observable of the GLib "
+                              "model on this session (F9(e)): %s" % D.KEYS["glib-mark-after-handlers"],
+                              dict(kind="c20", case=c, observable_mark_after=D.observable(c, mg), observable_mark_first=D.observable(c, mf)),
+                              found=True)
     chk.extra["sessions_compared_four_ways"] = len(fw.cases) + len(ws) + len(sc)
     chk.extra["real_loops_agree"] = stats["agree"]
     chk.extra["real_loops_differ"] = stats["differ"]
